@@ -380,7 +380,13 @@ impl Property for C03 {
             // in this one) must not be a goodbye
             {
                 let withdrawn = |i: usize, ifx: Option<u32>| -> Option<u64> {
-                    let last = m.recs[i].arrivals.iter().filter(|x| x.step <= e.step && ifx.map(|f| f == x.if_index).unwrap_or(true)).max_by_key(|x| (x.step, x.rx));
+                    let on = |x: &&Arrival| ifx.map(|f| f == x.if_index).unwrap_or(true);
+                    // several packets may be read in one step and the event may have been built between two of them: a live
+                    // copy read in the event's own step leaves the order open
+                    if m.recs[i].arrivals.iter().filter(on).any(|x| x.step == e.step && x.ttl > 0) {
+                        return None;
+                    }
+                    let last = m.recs[i].arrivals.iter().filter(|x| x.step <= e.step).filter(on).max_by_key(|x| (x.step, x.rx));
                     match last {
                         Some(x) if x.ttl == 0 && x.certain && !x.corrupted => Some(x.t),
                         _ => None,
